@@ -63,7 +63,11 @@ func main() {
 		if err := json.Unmarshal(b, &rp); err != nil {
 			panic(err)
 		}
-		res := runProgram(&rp.Program, rt.Config{Seed: rp.Seed, Strategy: "replay", Schedule: rp.Schedule, MaxSteps: *maxSteps, MaxTicks: rp.Program.MaxTicks})
+		ms := *maxSteps
+		if rp.Program.Steps > 0 {
+			ms = rp.Program.Steps
+		}
+		res := runProgram(&rp.Program, rt.Config{Seed: rp.Seed, Strategy: "replay", Schedule: rp.Schedule, MaxSteps: ms, MaxTicks: rp.Program.MaxTicks})
 		emit(w, 0, &rp.Program, rp.Seed, res, *quiet)
 		return
 	}
@@ -88,6 +92,9 @@ func main() {
 			continue
 		}
 		cfg := rt.Config{Seed: es, Strategy: "random", MaxSteps: *maxSteps, MaxTicks: p.MaxTicks, TickBias: p.TickBias}
+		if p.Steps > 0 {
+			cfg.MaxSteps = p.Steps
+		}
 		switch r.Intn(3) {
 		case 1:
 			cfg.Strategy = "pct"
